@@ -425,6 +425,10 @@ def compare_frame(case, t, real, ref, with_counts=True):
             cmp_arrays(f"wcap:{tag}:frame{t}", real["wc" + tag][t], ref["wc" + tag], 1e-6)
         if why:
             return why
+        if case["l"] % 2 == 1 and float(np.abs(real["w" + tag][t]).max()) > 1e-9:
+            # C09_w_odd_zero: the 3-j numbers of an odd degree are antisymmetric in their orders, so w_l vanishes for every q_lm
+            return (f"w-odd:{tag}:frame{t}: w_l of the odd degree l = {case['l']} is {float(np.abs(real['w' + tag][t]).max())!r}, "
+                    f"it vanishes identically (antisymmetry of the 3-j symbol)")
     return None
 
 
@@ -770,6 +774,13 @@ def correspond(run):
         return dict(c, frames=[common.jitter_positions(rng, fr, 0.1, 3) for fr in c["frames"]])
     cases += common.add_siblings(run.rng, [gen_case(run.rng, run.tier) for _ in range(n)], sibling, every=5)
     dis, prop, skipped = [], [], {}
+    # contract behind C09_w_odd_zero, on the table the library really uses: (l l l; m1 m2 m3) = −(l l l; m2 m1 m3) for odd l
+    from PyMatterSim.utils.funcs import Wignerindex
+    for l_ in (1, 3, 5):
+        tab = {(int(a), int(b), int(c)): float(w) for a, b, c, w in np.asarray(Wignerindex(l_), dtype=float)}
+        if any(abs(w + tab.get((k[1], k[0], k[2]), -w)) > 1e-12 for k, w in tab.items()):
+            prop.append(({"kind": "wigner", "l": l_}, f"the table of 3-j numbers returned by Wignerindex({l_}) is not antisymmetric under "
+                                                      f"the exchange of its first two orders"))
     for case in cases:
         st, why = run_case(run, case)
         run.hist("class", classify(case))
